@@ -244,7 +244,9 @@ class BaseData:
         self, index: int, column: Dict, ref_statement: Dict
     ) -> Dict:
         """create alter column metadata"""
-        column_reference = ref_statement["columns"][index]
+        ref_columns = ref_statement["columns"]
+        # no referenced column list (the referenced table's key): no column
+        column_reference = ref_columns[index] if index < len(ref_columns) else None
         alter_column = {
             "name": column["name"],
             "constraint_name": column.get("constraint_name"),
